@@ -142,6 +142,73 @@ def run(F):
             r.fail(iid, b.file_line(), "ideal_gas_enthalpy_of_adsorption: the temperature is no longer seeded with .derivative() for _henry_coefficients, "
                                        "or value / derivative parts of its result are no longer both read (found calls %s, parts %s)" % (
                                            sorted(set(x for x in names if x in ("_henry_coefficients", "derivative"))), sorted(parts)))
+    # (f) drho_dt: the right-hand side is m_i * (d F'/dT part) + v_i dp/dT: the chain-length scaling applies to the functional part
+    #     only, so the bulk term (built from partial_molar_volume / dp_dt) is added after the scaling, never before it
+    bs = [b for b in F.bodies if not b.is_closure() and b.path.startswith(prop) and b.path.endswith("::drho_dt")]
+    if bs:
+        from cfg import reachable
+        b = bs[0]
+        bodies = [b] + [c for c in F.bodies if c.is_closure() and (c.d.get("parent") or "") == b.path]
+        scale_blocks, add_blocks = [], []
+        for x in bodies:
+            if x is not b:
+                continue
+            defs = Defs(x)
+            for bi, t in x.calls():
+                nm = str(callee(t)[2])
+                if nm not in ("mul_assign", "add_assign") or len(t["args"]) != 2:
+                    continue
+                srcs = set()
+                work, seen = [t["args"][1]["place"]["l"]] if t["args"][1].get("k") in ("copy", "move") else [], set()
+                while work and len(seen) < 80:
+                    l = work.pop()
+                    if l in seen:
+                        continue
+                    seen.add(l)
+                    for d in defs.of(l):
+                        if d[0] == "call":
+                            srcs.add(str(callee(d[2])[2]))
+                            work += [a["place"]["l"] for a in d[2]["args"] if a.get("k") in ("copy", "move")]
+                        else:
+                            rv = d[4]
+                            ops = [rv["op"]] if rv["k"] in ("use", "cast") else [rv["a"], rv["b"]] if rv["k"] == "binop" else []
+                            if rv["k"] == "ref":
+                                ops = [{"k": "copy", "place": rv["place"]}]
+                            work += [o["place"]["l"] for o in ops if o.get("k") in ("copy", "move")]
+                if nm == "mul_assign" and "m" in srcs:
+                    scale_blocks.append(bi)
+                if nm == "add_assign" and ({"partial_molar_volume", "dp_dt"} & srcs):
+                    add_blocks.append(bi)
+        iid = "implicit|drho_dt|order"
+        # the same inside a per-row closure (`for_each(|((((mut lhs, rho), rho_b), &m), x)| { ..; lhs *= m; lhs += x; })`): a scalar
+        # factor is applied before a scalar summand is added
+        closure_verdict = None
+        for x in bodies:
+            if x is b:
+                continue
+            muls = [bi for bi, t in x.calls() if callee(t)[2] == "mul_assign" and len(t["args"]) == 2 and (x.opty(t["args"][1]) or {}).get("s") in ("f64", "&f64")]
+            adds = [bi for bi, t in x.calls() if callee(t)[2] == "add_assign" and len(t["args"]) == 2 and (x.opty(t["args"][1]) or {}).get("s") in ("f64", "&f64")]
+            if muls and adds:
+                closure_verdict = not any(mb in reachable(x, start=ab) for ab in adds for mb in muls)
+        if closure_verdict is not None:
+            n += 1
+            if closure_verdict:
+                r.inst(iid, b.file_line(), "ok")
+            else:
+                r.inst(iid, b.file_line(), "violation")
+                r.fail(iid, b.file_line(), "DFTProfile::drho_dt: the bulk term v_i dp/dT is added before the right-hand side is scaled with the chain "
+                                           "length m_i, so it is scaled as well: dN/dT of chain molecules (m != 1) is wrong")
+        elif scale_blocks and add_blocks:
+            n += 1
+            bad = any(sb in reachable(b, start=ab) for ab in add_blocks for sb in scale_blocks if sb != ab)
+            if bad:
+                r.inst(iid, b.file_line(), "violation")
+                r.fail(iid, b.file_line(), "DFTProfile::drho_dt: the bulk term v_i dp/dT is added before the right-hand side is scaled with the chain "
+                                           "length m_i, so it is scaled as well: dN/dT of chain molecules (m != 1) is wrong")
+            else:
+                r.inst(iid, b.file_line(), "ok")
+        else:
+            r.inst(iid, b.file_line(), "undecided", nontrivial=False)
     # (e) segment -> component aggregation of an integral *assigns* one representative segment per component (all segments of a
     #     molecule integrate to the same number of molecules); accumulating them multiplies Henry coefficients and dN/dmu of
     #     heterosegmented molecules by the number of segments
@@ -155,13 +222,18 @@ def run(F):
         names = [str(callee(t)[2]) for _, _, t in _calls(bs[0], F)]
         acc = [x for x in names if x in ("add_assign", "sum", "fold", "scaled_add", "sum_axis")]
         n += 1
-        if acc:
+        if "component_index" not in names:
+            r.inst(iid, bs[0].file_line(), "violation")
+            r.fail(iid + "|component_index", bs[0].file_line(),
+                   "DFTProfile::%s no longer maps segments to components through `component_index()`: the first axis of a profile counts "
+                   "segments, so indexing it with a component number reads another component's segment for heterosegmented mixtures" % nm)
+        elif acc:
             r.inst(iid, bs[0].file_line(), "violation")
             r.fail(iid, bs[0].file_line(),
                    "DFTProfile::%s accumulates (%s) the segment integrals of a component instead of assigning one representative: quantities "
                    "of heterosegmented molecules are multiplied by their number of segments" % (nm, ", ".join(sorted(set(acc)))))
         else:
             r.inst(iid, bs[0].file_line(), "ok")
-    r.floor("implicit-derivative obligations", n, 10, exact=True)
+    r.floor("implicit-derivative obligations", n, 10)
     r.exhaustive = True
     return [r]
